@@ -175,11 +175,14 @@ function runShard(info, thorough) {
   const all = casesOf(thorough)
   const work = []
   all.forEach((cs, ci) => VARIANTS.forEach((sx, vi) => { if (!cs.name.startsWith('expr:') || vi === 0 || vi === 3 || vi === 4 || vi === 6) work.push({ cs, sx, vi }) }))
+  // the one-line printing behind a byte order mark (3 bytes, 1 UTF-16 unit, skipped by the parser but counted in positions): every
+  // position of the first line then lies where byte offsets, UTF-16 offsets and "offsets without the mark" all differ
+  all.forEach((cs) => { if (!cs.name.endsWith('|astral')) work.push({ cs, sx: VARIANTS[0], vi: 0, bom: true }) })
   const mine = work.filter((_, i) => i % info.of === info.shard)
   const CH = 400
   for (let s = 0; s < mine.length; s += CH) {
     const part = mine.slice(s, s + CH)
-    const jobs = part.map((w, i) => ({ id: i, files: [['d/m', T.print(w.cs.main, w.sx).text]], want: ['ast'] }))
+    const jobs = part.map((w, i) => ({ id: i, files: [['d/m', (w.bom ? '\uFEFF' : '') + T.print(w.cs.main, w.sx).text]], want: ['ast'] }))
     const res = C.compileBatch(jobs, 1)
     part.forEach((w, i) => {
       rep.transitions += 1
@@ -216,7 +219,7 @@ async function main() {
   }
   const rep = await C.runSharded(__filename, ['--tier', thorough ? 'thorough' : 'quick'])
   const res = rep.toResult('C16',
-    'every template of the model corpus and of the scope skeletons, plain and with multi-byte / astral characters in static text and values behind an astral comment line, plus every expression shape of depth <= 2 in attribute and text position; each printed in 6 concrete-syntax variants (one line, paired tags, attributes on separate lines, bindings on separate lines, CRLF line ends, hex entities with single quotes). For every located AST node (tag punctuation and names, attribute names of every family, scope names, static values and pieces, identifiers, member names, literals, operators, brackets, comments, script bodies): the source slice at its location is its spelling (normalised names compared after the documented normalisation); children lie inside their parent; children of expressions, values and node lists are in source order. For the re-print source map: output positions never decrease, source positions exist, the source text at a named token starts with the name. non-trivial = multi-line or non-ASCII source',
+    'every template of the model corpus and of the scope skeletons, plain and with multi-byte / astral characters in static text and values behind an astral comment line, plus every expression shape of depth <= 2 in attribute and text position; each printed in 6 concrete-syntax variants and once on one line behind a byte order mark (one line, paired tags, attributes on separate lines, bindings on separate lines, CRLF line ends, hex entities with single quotes). For every located AST node (tag punctuation and names, attribute names of every family, scope names, static values and pieces, identifiers, member names, literals, operators, brackets, comments, script bodies): the source slice at its location is its spelling (normalised names compared after the documented normalisation); children lie inside their parent; children of expressions, values and node lists are in source order. For the re-print source map: output positions never decrease, source positions exist, the source text at a named token starts with the name. non-trivial = multi-line or non-ASCII source',
     { cases: casesOf(thorough).length, variants: VARIANTS.length },
     true,
     ['JavaScript string indices are UTF-16 code units, the unit of the recorded columns', 'the AST is read through the public parse API by the harness (ast.rs)', 'templates that parse with an Error-level diagnostic are outside the property and counted'],
